@@ -61,8 +61,10 @@ func (x *h) listings() error {
 		if wrapped {
 			st = store.NewWriteControlledStore(base)
 		}
+		st = x.watch(st, "listing")
 		canon := fmt.Sprintf("listing boundary-ids wrapped=%v", wrapped)
 		ctx.Current(canon, nil)
+		x.sit = situation{Scenario: canon}
 		ids := x.boundaryIDs()
 		content := map[string][]byte{}
 		check := func(step string) {
